@@ -442,5 +442,8 @@ pub fn run(args: &Args) {
         }
         report.unfreeze();
     }
+    if args.tier == vcore::Tier::Thorough {
+        crate::fuzz::campaign(&report, crate::fuzz::Target::Relay, 3_000_000);
+    }
     crate::finish(report);
 }
